@@ -104,3 +104,13 @@ PROPS["C19"] = dict(
     e1=[],
     e2=["c19"],
 )
+
+PROPS["C18"] = dict(
+    bounds="membership of an arbitrary key in each source: arbitrary; all 19 certificate kinds x key/script credential (pool registration and genesis delegation excluded from the table obligation); "
+           "sized transaction with 0-3 counted keys and 0-2 Byron addresses",
+    assumptions=["key-hash sets are tracked pointwise (membership of one arbitrary key); that the container de-duplicates is C16's obligation",
+                 "predicted size vs signed size is not executed end to end (full_size()/build_tx() exceed reach): mock witness sizes are C06/C13 obligations, script availability is covered only through get_combined_* being passed on unchanged",
+                 "sub-builder signer getters are arbitrary sets in the union obligation"],
+    e1=[],
+    e2=["c18"],
+)
